@@ -150,6 +150,29 @@ theorem C06_poison_sets :
   · intro f hf; cases f <;> first | exact ⟨rfl, rfl, rfl⟩ | exact absurd hf (by decide)
   · intro f; cases f <;> rfl
 
+/-- **Closing a sound-effect mixer session leaves nothing behind.**  After `xmp_end_smix` (legal in every
+state below PLAYING) each member of `smix_data` holds exactly what `xmp_create_context` gave it, whatever
+session was open, and nothing else changes; so a context whose sessions were opened and closed agrees with a
+fresh one on the `smix` part of `Persistent` and `C06_history_independent` applies to it.  (Dropping one of the
+assignments of `xmp_end_smix`, e.g. `smix->chn = 0`, breaks the operation correspondence and the oracle:
+signature `reset:smix.chn`.) -/
+theorem C06_end_smix_created (s : Ctx) (r : Int) (hs : ¬ s .state 0 > K.XMP_STATE_LOADED) :
+    (∀ f, SmixField f = true → endSmix s f = createContext r f) ∧
+    (∀ f, SmixField f = false → endSmix s f = s f) ∧
+    (∀ f, SmixField f = true → Persistent f = true) := by
+  refine ⟨?_, ?_, ?_⟩
+  · intro f hf; unfold endSmix; rw [if_neg hs]
+    cases f <;> first | rfl | exact absurd hf (by decide)
+  · intro f hf; unfold endSmix; rw [if_neg hs]
+    cases f <;> first | rfl | exact absurd hf (by decide)
+  · intro f hf; cases f <;> first | rfl | exact absurd hf (by decide)
+
+/-- a session opened with any reservation and closed again: the smix members are those of a created context -/
+example : ∀ f, SmixField f = true →
+    endSmix (startSmix 4 3 (fun _ => 9) (createContext 1)) f = createContext 1 f := by
+  intro f hf
+  exact (C06_end_smix_created _ 1 (by decide)).1 f hf
+
 /-- the classes are used consistently: nothing persistent is dead, partial or overwritten by start -/
 theorem C06_persistent_disjoint : ∀ f, Persistent f = true →
     (StartWrites f || Dead f || PartialField f || LoaderMayWrite f || NameField f || MixerWrites f) = false := by
